@@ -1,5 +1,6 @@
 """Python STIX2 Memory Source/Sink"""
 
+import collections.abc
 import io
 import itertools
 import json
@@ -35,6 +36,9 @@ def _add(store, stix_data, allow_custom=True, version=None):
         for stix_obj in stix_data:
             _add(store, stix_obj, allow_custom, version)
 
+    elif isinstance(stix_data, collections.abc.Mapping) and "type" not in stix_data:
+        raise ValueError("Can't store an object with no 'type' property")
+
     elif stix_data["type"] == "bundle":
         # adding a json bundle - so just grab STIX objects
         for stix_obj in stix_data.get("objects", []):
@@ -50,14 +54,18 @@ def _add(store, stix_data, allow_custom=True, version=None):
         # Map ID to a _ObjectFamily if the object is versioned, so we can track
         # multiple versions.  Otherwise, map directly to the object.  All
         # versioned objects should have a "modified" property.
+        if "id" not in stix_obj:
+            raise ValueError("Can't store an object without an 'id'")
+
         if "modified" in stix_obj:
             if stix_obj["id"] in store._data:
                 obj_family = store._data[stix_obj["id"]]
             else:
                 obj_family = _ObjectFamily()
-                store._data[stix_obj["id"]] = obj_family
 
+            # (register a new family only once the object is in it)
             obj_family.add(stix_obj)
+            store._data[stix_obj["id"]] = obj_family
 
         else:
             store._data[stix_obj["id"]] = stix_obj
